@@ -88,7 +88,8 @@ def build_router(E, log):
          assumptions=[PARAMETRIC, 'route handlers are abstract callables (may return anything)'])
 def route(E):
     result = SOpaque('result', 'handler-result', props={'isinstance:Future': False, 'isinstance:Payload': E.path.choice(2, 'result-is-payload') == 1})
-    log = OpaqueLog(E, returns={'__call__': lambda *a: aio.Awaitable('ready', result=result)})
+    # a route handler is application code: it may fail with any exception (KeyError, LookupError, ... included)
+    log = OpaqueLog(E, returns={'__call__': lambda *a: aio.Awaitable('ready', result=result)}, may_raise=lambda o, m: o.kind == 'callable' and m == '__call__')
     # to keep the enumeration small the table shape of the OTHER types is fixed to "registered + unknown" (worst case for confusion)
     sig_hook(E)
     router = E.call(E.lookup(RR + 'RequestRouter'), [])
@@ -108,6 +109,15 @@ def route(E):
     try:
         r = E.await_value(E.call(E.getattr(router, 'route'), [ft, 'r1', payload, cm]))
     except PyExc as e:
+        if 'from_opaque' in e.value.attrs:
+            # the invoked handler failed: the request fails with exactly that exception - it is NOT re-dispatched (a failing
+            # registered handler is not an unknown route), whatever the class of the exception
+            E.cover('handler-failed')
+            inv = [c for c in log.calls if c[0].kind == 'callable']
+            want = 'route:%s:r1' % t if reg else 'unknown:%s' % t
+            E.prove('route:a_failing_handler_fails_the_request_and_nothing_else_is_invoked', len(inv) == 1 and inv[0][0].ident == want
+                    and (reg or unk))
+            return
         E.cover('unknown-route')
         E.prove('route:fails_only_without_registered_and_without_unknown_handler', not reg and not unk)
         E.prove('route:raises_RSocketUnknownRoute_and_invokes_nothing', e.value.cls.name == 'RSocketUnknownRoute'
